@@ -113,6 +113,7 @@ def parseLine (views : Views) (ws : List String) : Option (Views × Option TEv) 
     | ["end"] => ev .end_
     | ["gor", n] => ev (.gor (← parseNat n))
     | ["site", op, fn] => ev (.site (← parseNat op) fn)
+    | ["cancelctx", i] => ev (.cancelCtx (← parseNat i))
     | _ => none
   | [] => none
 
